@@ -268,8 +268,7 @@ Fixpoint run_defers (run : runner) (ds : list deferred) (s : state)
     settle (run (TCall f [] [] []) s) (fun s' o =>
       run_defers run r s'
         match first, o with
-        | None, Exc k p => Some (k, p)
-        | None, Done _ => if st_stale s' then Some (KNil, []) else None
+        | None, Exc k p => Some (k, p)      (* a callback that succeeds contributes nothing *)
         | _, _ => first
         end)
   end.
@@ -326,7 +325,7 @@ Fixpoint each_loop (run : runner) (f : value) (items : list value) (s : state) :
     settle (run (TCall f [v] [] []) s) (fun s2 o =>
       match o with
       | Exc KBreak _ => ret s2 []
-      | Exc KContinue _ | Exc KNil _ | Done _ => each_loop run f r s2
+      | Exc KContinue _ | Done _ => each_loop run f r s2
       | _ => (s2, o)
       end)
   end.
@@ -546,9 +545,8 @@ Fixpoint declare_all (s : state) (xs : list N) (vs : list value) : state :=
   end.
 
 (* ---- pipelines: stage by stage ---- *)
-(* a reason-less exception counts as success for a pipeline *)
 Definition exc_of (o : outcome) : list value :=
-  match o with Exc KNil _ => [] | Exc k p => [VExc k p] | _ => [] end.
+  match o with Exc k p => [VExc k p] | _ => [] end.
 
 Definition finish_pipe (s : state) (excs : list value) : res :=
   match excs with
@@ -705,7 +703,7 @@ Definition step_cmd (run : runner) (c : cmd) (inp : list value) (s : state) : re
             match cv with
             | Some (_, x) =>
               match lookup (st_env s1) x with
-              | Some a => call_block run cb (store_at s1 a (match k with KNil => VOk | _ => VExc k p end))
+              | Some a => call_block run cb (store_at s1 a (VExc k p))
               | None => unsup s1
               end
             | None => call_block run cb s1
